@@ -494,7 +494,25 @@ def _read_request(
             )
         # Record the schema the kwargs came off, before as_py() erases it.
         _current_request_param_schema.set(batch.schema)
-        kwargs = {f.name: batch.column(i)[0].as_py() for i, f in enumerate(batch.schema)}
+        kwargs = {}
+        for i, f in enumerate(batch.schema):
+            try:
+                kwargs[f.name] = batch.column(i)[0].as_py()
+            except Exception as exc:
+                # The caller chooses the column types, and not every Arrow
+                # value has a Python counterpart (a timestamp, date or duration
+                # beyond datetime's range raises OverflowError / ValueError, an
+                # unknown time zone raises from the tz lookup).  That is a
+                # malformed request like a wrong row count: answer it as one,
+                # instead of letting the conversion error escape the serve
+                # loop without a reply (pipe) or be reported as a server-side
+                # failure (HTTP).
+                raise RpcError(
+                    "ProtocolError",
+                    f"Request parameter {f.name!r} of Arrow type {f.type} has no Python value: "
+                    f"{type(exc).__name__}: {exc}",
+                    "",
+                ) from exc
     finally:
         if release_shm is not None:
             release_shm()
